@@ -473,6 +473,9 @@ FEATURES = [
     ("perigee=156km(by e)", _thr_perigee(156.0, "e"), ["near-low"]), ("perigee=156km(by n)", _thr_perigee(156.0, "n"), ["near-low"]),
     ("perigee=98km(by e)", _thr_perigee(98.0, "e"), ["near-low"]), ("perigee=98km(by n)", _thr_perigee(98.0, "n"), ["near-low"]),
     ("period=225min", _thr_period, ["near-full"]),
+    # a branch INSIDE the reference's deep-space code that depends on its mode of operation: Lyddane's modification for inclinations
+    # below 0.2 rad, where a node that has regressed through 0 is (afspc mode) or is not (improved mode, the library default) wrapped
+    ("deep-lyddane-node-through-0", lambda p, rng, side: p.update(inc=round(rng.uniform(0.5, 11.0), 4), raan=[0.0, round(rng.uniform(0.0, 3.0), 4)][side]) or True, ["deep"]),
     ("e=max-for-perigee-220(kepler-loop)", lambda p, rng, side: p.update(n8=int(rng.uniform(6.5, 7.5) * 1e8), ma=[2.0, 358.0][side],
                                                                            e7=int((1 - (RE_KM + 225.0) / _a_km(7.5)) * 1e7)) or True, ["near-full"]),
     ("norad=00001,elnb=0,revs=0", _set(norad=1, elnb=0, revs=0), None), ("norad=99999,elnb=9999,revs=99999", _set(norad=99999, elnb=9999, revs=99999), None),
